@@ -1160,3 +1160,21 @@ mod tests {
                 // assert_eq!(rel_path(&pref_manager.rules_dir, pref_manager.speech.as_path()), PathBuf::from("Languages/zz/SimpleSpeak_Rules.yaml"));
     }
 }
+
+// ---- verification hook (compiled only with --cfg mathcat_verif); see /verif/DESIGN.md §5 (H6)
+/// the rule, Unicode and definition files the current preferences resolve to, or the manager's error
+#[cfg(mathcat_verif)]
+pub fn verif_rule_files() -> std::result::Result<Vec<(String, String)>, String> {
+    let pref_manager = PreferenceManager::get();
+    let pm = pref_manager.borrow();
+    if !pm.error.is_empty() {
+        return Err(pm.error.clone());
+    }
+    let files: [(&str, &PathBuf); 11] = [
+        ("intent", &pm.intent), ("speech", &pm.speech), ("overview", &pm.overview), ("navigation", &pm.navigation),
+        ("speech_unicode", &pm.speech_unicode), ("speech_unicode_full", &pm.speech_unicode_full), ("speech_defs", &pm.speech_defs),
+        ("braille", &pm.braille), ("braille_unicode", &pm.braille_unicode), ("braille_unicode_full", &pm.braille_unicode_full),
+        ("braille_defs", &pm.braille_defs),
+    ];
+    return Ok( files.iter().map(|(name, path)| (name.to_string(), path.to_string_lossy().to_string())).collect() );
+}
